@@ -156,6 +156,8 @@ class World:
             "concrete_script": self.concrete_script,
             "warnings": self.warnings,
             "stub_parallel": env.stub_parallel,
+            "real_timeout_guard": env.real_timeout_guard,
+            "budget_exhausted": env.budget_exhausted,
             "clients": {cid: {"ind_names": dict(cl.handles.ind_name) if cl.handles else {},
                               "obj_ind_names": list(cl.handles.obj_ind_names) if cl.handles else [],
                               "spec": cl.spec, "config": cl.config} for cid, cl in self.clients.items()},
@@ -335,9 +337,15 @@ class World:
             res = s.solve()
             self._record_solution(cl, ev, res)
         elif op == "find_another":
+            if step.get("if_model") and s._model is None:
+                ev["outcome"] = "skipped"
+                return
             res = s.find_another_solution()
             self._record_solution(cl, ev, res)
         elif op == "find_another_for":
+            if step.get("if_model") and s._model is None:
+                ev["outcome"] = "skipped"
+                return
             var = cl.handles.vars[step["args"]["var"]]
             if s._model is not None:
                 try:
